@@ -27,7 +27,7 @@ PROPS = {
     "C02": {
         "props": "TrackVerif.TA.PropsC02",
         "streams": [("TA", 1500, 20000)],
-        "clauses": ["ta.decode", "ta.no_row_loss", "ta.malformed_accepted"],
+        "clauses": ["ta.decode", "ta.no_row_loss", "ta.malformed_accepted", "ta.no_hang"],
         "rule": "PRNG(seed) well-formed logs: column subsets/permutations of the 35 known headers (quoted or bare, LF or CRLF, "
                 "with or without final newline), 0..40 rows (up to 400 in thorough), lap markers at arbitrary positions, header/trailing comments; "
                 "plus the real 12k-line log (head and lap-boundary excerpts in quick, whole file in thorough); non-trivial = >= 3 lines; distinct by SHA-1",
@@ -39,7 +39,7 @@ PROPS = {
     "C15": {
         "props": "TrackVerif.TA.PropsC15",
         "streams": [("TA", 2000, 30000)],
-        "clauses": ["ta.malformed_accepted", "ta.no_panic", "ta.no_row_loss"],
+        "clauses": ["ta.malformed_accepted", "ta.no_panic", "ta.no_hang", "ta.no_row_loss"],
         "rule": "PRNG(seed): 90% damaged logs (1..3 mutations of a well-formed log: deleted/duplicated field, truncated line, colon dropped, "
                 "value-less comments, blank line, stray quote, unparsable value, unknown column, random bytes, overlong line, duplicated/deleted line, "
                 "swapped characters), 10% well-formed; fixed corpus of past crashers first; non-trivial = >= 3 lines; distinct by SHA-1",
